@@ -28,18 +28,34 @@ NamedSeq == <<"none", "b1", "b2", "b3", "b4", "b1", "b2">>
 State == [default |-> default, pref |-> pref, depositors |-> depositors, vault |-> vault, bal |-> bal, src |-> src, sink |-> sink]
 StateP == [default |-> default', pref |-> pref', depositors |-> depositors', vault |-> vault', bal |-> bal', src |-> src', sink |-> sink']
 
+(* Walks 1..NSys are not random: the full product  per-bucket decision inputs (XRD or not x preference x default
+   rule x vault exists = 36)  x  the 4 guarded methods  x  badge status (none / named but unlisted / listed but unproven /
+   listed and proven), each as a one-call history on a fresh account - independent of the seed.        *)
+NSys == 576
+Sys == sd <= NSys
+SysR == IF (sd - 1) % 2 = 0 THEN "A" ELSE "X"
+SysPref == <<"unset", "allowed", "disallowed">>[(((sd - 1) \div 2) % 3) + 1]
+SysDefault == DefSeq[(((sd - 1) \div 6) % 3) + 1]
+SysVault == IF ((sd - 1) \div 18) % 2 = 1 THEN {SysR} ELSE {}
+SysOp == <<"try_deposit_or_refund", "try_deposit_batch_or_refund", "try_deposit_or_abort", "try_deposit_batch_or_abort">>[(((sd - 1) \div 36) % 4) + 1]
+SysCaller == <<[named |-> "none", proofs |-> {}, owner |-> FALSE], [named |-> "b2", proofs |-> {"pN1"}, owner |-> FALSE],
+               [named |-> "b1", proofs |-> {"pN1"}, owner |-> FALSE], [named |-> "b1", proofs |-> {"pF"}, owner |-> FALSE]>>[(((sd - 1) \div 144) % 4) + 1]
+Bound == IF Sys THEN 1 ELSE K
 GInit ==
   /\ sd \in 1..Walks /\ step = 0
   /\ rs = Stream(sd)
   /\ LET r == rs
-     IN /\ default = DefSeq[(r[1] % 3) + 1]
-        /\ pref = [x \in Resources |-> PrefSeq[(r[IF x = "X" THEN 2 ELSE IF x = "A" THEN 3 ELSE 4] % 4) + 1]]
-        /\ depositors = {BadgeSeq[i] : i \in {j \in 1..4 : r[4 + j] % 3 = 0}}
-        /\ vault = {ResSeq[i] : i \in {j \in 1..3 : r[8 + j] % 2 = 0}}
+     IN IF Sys
+        THEN /\ default = SysDefault /\ pref = [x \in Resources |-> IF x = SysR THEN SysPref ELSE "unset"]
+             /\ depositors = {"b1"} /\ vault = SysVault
+        ELSE /\ default = DefSeq[(r[1] % 3) + 1]
+             /\ pref = [x \in Resources |-> PrefSeq[(r[IF x = "X" THEN 2 ELSE IF x = "A" THEN 3 ELSE 4] % 4) + 1]]
+             /\ depositors = {BadgeSeq[i] : i \in {j \in 1..4 : r[4 + j] % 3 = 0}}
+             /\ vault = {ResSeq[i] : i \in {j \in 1..3 : r[8 + j] % 2 = 0}}
   /\ bal = Zero /\ src = Zero /\ sink = Zero
   /\ last = [op |-> "init", arg |-> NoArg, bs |-> <<>>, c |-> NoCaller, class |-> "ok", returned |-> <<>>, events |-> <<>>]
   /\ hist = <<[op |-> "init", arg |-> NoArg, bs |-> <<>>, c |-> NoCaller, class |-> "ok", returned |-> <<>>, events |-> <<>>, st |-> State,
-              cell |-> [all |-> TRUE, badge |-> "none", dup |-> FALSE, empty |-> FALSE, newvault |-> FALSE]]>>
+              cell |-> [all |-> TRUE, badge |-> "none", dup |-> FALSE, empty |-> FALSE, newvault |-> FALSE, inputs |-> {}]]>>
 
 \* the operation of step j of walk sd
 Bucket(r, p, i) == [r |-> ResSeq[(r[p + 2 + i] % 3) + 1], a |-> r[p + 5 + i] % 3]
@@ -69,12 +85,14 @@ Cell == [all |-> AllAllowed,
                    ELSE IF Vouched THEN "vouched" ELSE "unproven",
          dup |-> \E i, j \in DOMAIN LBs : i # j /\ LBs[i].r = LBs[j].r,
          empty |-> \E i \in DOMAIN LBs : LBs[i].a = 0,
-         newvault |-> vault' # vault]
-GNext == /\ step < K
-         /\ StepAction(step + 1)
+         newvault |-> vault' # vault,
+         \* the inputs of the per-bucket decision: <<preference, default rule, vault exists, is XRD>>
+         inputs |-> {<<pref[LBs[i].r], default, LBs[i].r \in vault, LBs[i].r = XRD>> : i \in DOMAIN LBs}]
+GNext == /\ step < Bound
+         /\ (IF Sys THEN Call(SysOp, <<[r |-> SysR, a |-> 1]>>, SysCaller) ELSE StepAction(step + 1))
          /\ step' = step + 1 /\ sd' = sd /\ rs' = rs
          /\ hist' = Append(hist, [op |-> last'.op, arg |-> last'.arg, bs |-> last'.bs, c |-> last'.c, class |-> last'.class,
                                   returned |-> last'.returned, events |-> last'.events, st |-> StateP, cell |-> Cell])
 GSpec == GInit /\ [][GNext]_gvars
-Emit == step = K => PrintT(<<"B", ToJson(hist)>>)
+Emit == step = Bound => PrintT(<<"B", ToJson(hist)>>)
 =============================================================================
